@@ -59,7 +59,7 @@ var entryData = map[string][]byte{
 
 func oldData(rel string) []byte { return []byte("old content of " + rel + "\n") }
 
-var violCap capper
+var violCap, sampleCap capper
 
 func violate(res *vutil.Result, f vutil.Finding) {
 	if violCap.ok(f.Kind, 40) {
@@ -430,9 +430,18 @@ func writeReplay(res *vutil.Result, cases, work, xbin string, stride int) {
 					Detail: map[string]interface{}{"observed_after": after, "observed_removed": removed, "model_after": c.After}})
 			}
 		}
-		if k%9973 == 1 {
+		cat := "other"
+		switch {
+		case c.MustError:
+			cat = "must-error"
+		case c.Err == "none" && len(c.Entries) > 1:
+			cat = "success"
+		case c.Err != "none":
+			cat = c.Err
+		}
+		if k%7 == 3 && sampleCap.ok(cat, 1) {
 			class, _ := describe(c.Pop, c.Entries)
-			res.Sample(map[string]interface{}{"write_case": class, "model_error": c.Err, "real_error": fmt.Sprint(obs.err), "paths_changed": len(after)}, 6)
+			res.Sample(map[string]interface{}{"write_case": class, "must_error": c.MustError, "model_error": c.Err, "real_error": errKind(obs.err), "paths_changed": len(after)}, 6)
 		}
 		if stride > 0 && xbin != "" && k%int64(stride) == 0 && representable(c.Entries) {
 			xo, code, xroot := runExtract(sb, xbin, pop, c.Entries, int(k/int64(stride)))
